@@ -10,6 +10,7 @@ ops:
       dirs    : csv of hex board-directory names or `-`         pool    : csv of hex names (≤ 13 bytes) or `-`
       slot    : <c|j>:<name hex>:<title hex>:<bm hex>:<attr>:<chess>:<level>:<gid>     (j: LCG filler in every
                 other byte, c: zeros)
+  busy on|off|<ms>                               Shm.BBusyState held by "another process" (until off / for <ms>)
   newbm <csv of hex ids | ->                      ptttype.NewBM on these UserID_t values: the 39 bytes of the BM_t
   bcreate <userid hex> <cls> <name hex> <class hex> <title hex> <bms csv hex|-> <attr> <level> <chess> <0|1> <autocplog 0|1>   bbs.CreateBoard
   create <user hex> <ulevel> <uid> <cls> <name hex> <class hex> <title hex> <bms hex|nil> <attr> <level> <chess> <0|1> <autocplog 0|1>
@@ -393,6 +394,7 @@ structure DS where
   s : State
   pool : List Bytes
   levels : List Nat := []
+  busy : Bool := false
   sortBad : Bool := false
 
 /-- the sorter the driver runs the model with: Go's, remembering whether any output broke `SortSpec`
@@ -531,9 +533,19 @@ def stepC12 (st : Option DS) (ws : List String) : Option DS × String :=
       match parseCsvBytes ids 13 with
       | some ids => (st, toHex (newBM (ids.map (copyInto 13))))
       | none => (st, "bad-op")
+  | ["busy", w] =>
+      match st with
+      | none => (st, "bad-op")
+      | some ds =>
+          if w = "on" then (some { ds with busy := true }, "ok")
+          else if w = "off" then (some { ds with busy := false }, "ok")
+          else match parseNat w 4 with
+            | some _ => (st, "ok")      -- a timed window: only requests refused before it matters follow (see gen.go)
+            | none => (st, "bad-op")
   | "bcreate" :: rest =>
       match st, parseBbs rest with
       | some ds, some a =>
+          if ds.busy then (st, "bad-op") else
           let (s', r) := bbsCreate drvSort ds.s ds.levels a
           let slot := match r with
             | .ok (.inner (.ok b)) => some (b - 1)
@@ -544,12 +556,12 @@ def stepC12 (st : Option DS) (ws : List String) : Option DS × String :=
   | "create" :: rest =>
       match st, parseReq rest with
       | some ds, some q =>
-          let (s', r) := newBoard drvSort ds.s q
+          let (s', r) := if ds.busy then newBoardBusy ds.s q else newBoard drvSort ds.s q
           let slot := match r with
             | .ok (.ok b) => some (b - 1)
             | _ => none
           let out := showM showRes r ++ " " ++ observe ds.pool ds.s s' slot
-          (some { ds with s := s' }, if checkSorted s' || r.toBool = false then out else "sortspec-violated " ++ out)
+          (some { ds with s := s' }, if ds.busy || checkSorted s' || r.toBool = false then out else "sortspec-violated " ++ out)
       | _, _ => (st, "bad-op")
   | _ => (st, "bad-op")
 
